@@ -162,6 +162,16 @@ extern bool g_mx0, g_mx1, g_mx2, g_mx3, g_mx4, g_my0, g_my1, g_my2, g_my3, g_my4
 #else
 #define CE_K10(e)
 #endif
+#if CLAMP_ONLY == 11
+#define CE_K11(e) __CPROVER_ensures(e)
+#else
+#define CE_K11(e)
+#endif
+#if CLAMP_ONLY == 12
+#define CE_K12(e) __CPROVER_ensures(e)
+#else
+#define CE_K12(e)
+#endif
 #endif
 void clamp_blit_dimensions(const Image* dest, const Image* source, ssize_t* x, ssize_t* y, ssize_t* w, ssize_t* h, ssize_t* sx, ssize_t* sy)
 __CPROVER_requires(__CPROVER_is_fresh(dest, sizeof(Image))) __CPROVER_requires(__CPROVER_is_fresh(source, sizeof(Image)))
@@ -185,6 +195,15 @@ CE(0, (g_cw < 0 || g_ch < 0) ? (*w == 0 && *h == 0) : (*w == g_cw && *h == g_ch)
 /* (4) per axis, sound and maximal: chain of model flags (see above) */
 CE(0, g_mx0 == AXIS_MODEL(g_dx, __CPROVER_old(*x), __CPROVER_old(*w), __CPROVER_old(*sx), dest->width, source->width))
 CE(0, g_my0 == AXIS_MODEL(g_dy, __CPROVER_old(*y), __CPROVER_old(*h), __CPROVER_old(*sy), dest->height, source->height))
+/* (5) closed form of the result (makes the contract functional: a caller cannot be shown a rectangle the function would not return) */
+#define VMIN(a, b) ((a) < (b) ? (a) : (b))
+#define VMAX(a, b) ((a) > (b) ? (a) : (b))
+#define CL_T(x0, s0) ((x0) - VMIN(s0, 0))                           /* origin after the source-side shift */
+#define CL_W1(x0, w0, s0) ((w0) + VMIN(s0, 0) + VMIN(CL_T(x0, s0), 0)) /* span after both shifts */
+CE(11, *x == VMAX(CL_T(__CPROVER_old(*x), __CPROVER_old(*sx)), 0) && *sx == VMAX(__CPROVER_old(*sx), 0) - VMIN(CL_T(__CPROVER_old(*x), __CPROVER_old(*sx)), 0))
+CE(11, g_cw == VMIN(VMIN(CL_W1(__CPROVER_old(*x), __CPROVER_old(*w), __CPROVER_old(*sx)), source->width - *sx), dest->width - *x))
+CE(12, *y == VMAX(CL_T(__CPROVER_old(*y), __CPROVER_old(*sy)), 0) && *sy == VMAX(__CPROVER_old(*sy), 0) - VMIN(CL_T(__CPROVER_old(*y), __CPROVER_old(*sy)), 0))
+CE(12, g_ch == VMIN(VMIN(CL_W1(__CPROVER_old(*y), __CPROVER_old(*h), __CPROVER_old(*sy)), source->height - *sy), dest->height - *y))
 CE(1, g_mx0 == g_mx1) CE(2, g_mx1 == g_mx2) CE(3, g_mx2 == g_mx3) CE(4, g_mx3 == g_mx4) CE(5, g_mx4 == AXIS_IN(g_dx, *x, g_cw))
 CE(6, g_my0 == g_my1) CE(7, g_my1 == g_my2) CE(8, g_my2 == g_my3) CE(9, g_my3 == g_my4) CE(10, g_my4 == AXIS_IN(g_dy, *y, g_ch))
 __CPROVER_assigns(*x, *y, *w, *h, *sx, *sy, g_cw, g_ch, g_mx0, g_mx1, g_mx2, g_mx3, g_mx4, g_my0, g_my1, g_my2, g_my3, g_my4);
